@@ -188,8 +188,10 @@ class BuildError(Exception):
         self.logfile = logfile
 
 
-RES_RE = re.compile(r"^\[(?P<id>[^\]]+)\] line (?P<line>\d+) (?P<desc>.*): (?P<st>SUCCESS|FAILURE|UNKNOWN|ERROR|UNREACHABLE)$")
-NOLINE_RE = re.compile(r"^\[(?P<id>[^\]]+)\] (?P<desc>.*): (?P<st>SUCCESS|FAILURE|UNKNOWN|ERROR|UNREACHABLE)$")
+# property ids may themselves contain brackets (e.g. `core::slice::<impl [u8]>::split_at.assertion.1`)
+RES_RE = re.compile(r"^\[(?P<id>.+?)\] line (?P<line>\d+) (?P<desc>.*): (?P<st>SUCCESS|FAILURE|UNKNOWN|ERROR|UNREACHABLE)$")
+NOLINE_RE = re.compile(r"^\[(?P<id>.+?\.\d+)\] (?P<desc>.*): (?P<st>SUCCESS|FAILURE|UNKNOWN|ERROR|UNREACHABLE)$")
+SUMMARY_RE = re.compile(r"^\*\* (\d+) of (\d+) failed")
 FILE_RE = re.compile(r"^(?P<file>\S.*) function (?P<fn>.+)$")
 
 
@@ -201,6 +203,9 @@ def parse_cbmc(logpath):
     in_results = False
     sat_secs = 0.0
     nvars = None
+    nfailed_reported = None
+    ntotal_reported = None
+    pending = None
     with open(logpath, errors="replace") as f:
         for line in f:
             line = line.rstrip("\n")
@@ -215,6 +220,10 @@ def parse_cbmc(logpath):
             m = re.match(r"^(\d+) variables, (\d+) clauses", line)
             if m:
                 nvars = (int(m.group(1)), int(m.group(2)))
+            m = SUMMARY_RE.match(line)
+            if m:
+                nfailed_reported = int(m.group(1))
+                ntotal_reported = int(m.group(2))
             if line.startswith("VERIFICATION SUCCESSFUL"):
                 verdict = "SUCCESSFUL"
             elif line.startswith("VERIFICATION FAILED"):
@@ -225,7 +234,14 @@ def parse_cbmc(logpath):
                 in_results = False
             if not in_results:
                 continue
+            # descriptions can span lines (Kani sanity checks end with a URL on the next line): join until a status is seen
+            if pending is not None:
+                line = pending + " " + line
+                pending = None
             m = RES_RE.match(line) or NOLINE_RE.match(line)
+            if not m and line.startswith("[") and not line.startswith("[verif"):
+                pending = line
+                continue
             if m:
                 d = m.groupdict()
                 pid = d["id"]
@@ -237,7 +253,8 @@ def parse_cbmc(logpath):
             m = FILE_RE.match(line)
             if m:
                 cur_file, cur_fn = m.group("file"), m.group("fn")
-    return {"props": props, "verdict": verdict, "sat_secs": sat_secs, "vars_clauses": nvars}
+    return {"props": props, "verdict": verdict, "sat_secs": sat_secs, "vars_clauses": nvars,
+            "nfailed_reported": nfailed_reported, "ntotal_reported": ntotal_reported}
 
 
 WIT_RE = re.compile(r"verif_harness\d+(W_[A-Z0-9_]+)\[(\d+)(?:ul|l)?\]=(-?\d+)")
@@ -314,6 +331,12 @@ def run_harness(h, symtab, mangled, clibs, workdir):
         tail = subprocess.run(["tail", "-5", lg], capture_output=True, text=True).stdout
         res.update(status="error", error="cbmc rc=%s no verdict: %s" % (rc, tail[-400:]), secs=time.time() - t0)
         return res
+    # the parser must account for every property CBMC reports, otherwise a failure could be silently dropped
+    nfail_parsed = sum(1 for pr in p["props"] if pr["status"] == "FAILURE")
+    if p["ntotal_reported"] is not None and (len(p["props"]) != p["ntotal_reported"] or nfail_parsed != p["nfailed_reported"]):
+        res.update(status="error", error="result parser out of sync with CBMC: parsed %d properties / %d failures, CBMC reports %s / %s" % (
+            len(p["props"]), nfail_parsed, p["ntotal_reported"], p["nfailed_reported"]), secs=time.time() - t0)
+        return res
     fails, covers, bad = [], {}, []
     for pr in p["props"]:
         if pr["class"] == "cover":
@@ -376,7 +399,7 @@ def run_suite(suite, scratch, logdir, jobs=None):
             log("  %-40s %-12s %6.1fs %s" % (h.name, r["status"], r.get("secs", 0),
                                             ("; ".join(f["desc"][:60] for f in r["failures"][:3]) or r.get("error", ""))[:160]))
             # keep the logs of anything that is not a clean pass
-            if r["status"] != "pass":
+            if r["status"] != "pass" or os.environ.get("VERIF_KEEP_LOGS"):
                 for suf in (".cbmc.log", ".trace.log", ".goto.log"):
                     src = os.path.join(work, h.name + suf)
                     if os.path.exists(src) and os.path.getsize(src) < 50_000_000:
